@@ -261,6 +261,63 @@ type RegexCase struct {
 	Chars bool   `json:"chars"`
 	Warm  int    `json:"warm,omitempty"`
 	Dyn   bool   `json:"dyn"` // regex given as a dynamic string instead of a /literal/
+	Hist  []h.Str `json:"hist,omitempty"` // statements executed first: the equations hold whatever came before
+}
+
+// genHistory draws statements that change interpreter state the builtins might
+// (wrongly) depend on: separators and their compiled forms, the record and its
+// fields, RSTART/RLENGTH, the target array, conversion formats.
+func genHistory(t *rapid.T, sep string) []h.Str {
+	var out []h.Str
+	n := rapid.IntRange(0, 4).Draw(t, "nhist")
+	if rapid.IntRange(0, 2).Draw(t, "hist?") != 0 {
+		n = 0
+	}
+	res := []string{`"[;:]"`, `", *"`, `"a|ab"`, `"[ ,]+"`, `"x+"`, `"\\|"`, `"(,)"`, `"[^,]"`}
+	for i := 0; i < n; i++ {
+		var st string
+		switch rapid.IntRange(0, 11).Draw(t, "hk") {
+		case 0:
+			st = "FS = " + rapid.SampledFrom(res).Draw(t, "fsre")
+		case 1:
+			st = "FS = " + awk.QuoteStr(sep)
+		case 2:
+			st = "FS = " + rapid.SampledFrom([]string{`","`, `":"`, `"|"`, `"\t"`, `" "`, `"a"`}).Draw(t, "fs1")
+		case 3:
+			st = "RS = " + rapid.SampledFrom(append([]string{`""`, `"\n"`, `";"`}, res...)).Draw(t, "rs")
+		case 4:
+			st = `$0 = "p,q;r:s a|b"; hx = $1 $2`
+		case 5:
+			st = `$3 = "zz"; hx = NF`
+		case 6:
+			st = `hx = match("foobar", /o+/)`
+		case 7:
+			st = `hn = split("9 8 7 6 5 4 3 2 1 0 a b c", parts)`
+		case 8:
+			st = `hn = split("u;v:w", parts, ` + rapid.SampledFrom(res).Draw(t, "spre") + `)`
+		case 9:
+			st = `ht = "aaa"; gsub(/a/, "b", ht); sub("b", "c", ht)`
+		case 10:
+			st = "SUBSEP = " + rapid.SampledFrom([]string{`","`, `":"`, `""`}).Draw(t, "subsep")
+		default:
+			st = "CONVFMT = " + rapid.SampledFrom([]string{`"%d"`, `"%.2g"`, `"%s"`}).Draw(t, "convfmt")
+		}
+		out = append(out, h.Str(st))
+	}
+	return out
+}
+
+func histSrc(hist []h.Str) string {
+	if len(hist) == 0 {
+		return ""
+	}
+	var sb strings.Builder
+	sb.WriteString("BEGIN {\n")
+	for _, st := range hist {
+		sb.WriteString("  " + string(st) + "\n")
+	}
+	sb.WriteString("}\n")
+	return sb.String()
 }
 
 var replTokens = []string{"&", `\&`, `\\`, "x", "-", "", "<", ">", "é", `\\&`[0:2] + "&"}
@@ -276,6 +333,7 @@ func genRegexCase(t *rapid.T) RegexCase {
 	if rapid.IntRange(0, 7).Draw(t, "warm?") == 0 {
 		c.Warm = rapid.IntRange(1, 250).Draw(t, "warm")
 	}
+	c.Hist = genHistory(t, string(c.Sep))
 	return c
 }
 
@@ -371,22 +429,22 @@ func runRegex(x *h.Ctx, c RegexCase) string {
 	if s != "" {
 		pieces = strings.Count(s, sep) + 1
 	}
-	fmt.Fprintf(&exp, "%d <%s>\n", pieces, s)
+	fmt.Fprintf(&exp, "%d <%s> %d\n", pieces, s, pieces)
 
-	src := warmup(c.Warm) + fmt.Sprintf(`BEGIN {
+	src := warmup(c.Warm) + histSrc(c.Hist) + fmt.Sprintf(`BEGIN {
   s = %s
   r = match(s, %s); printf "%%d %%d %%d <%%s>\n", r, RSTART, RLENGTH, substr(s, RSTART, RLENGTH)
   t = s; n = gsub(%s, "&", t); printf "%%d <%%s>\n", n, t
   t = s; n = sub(%s, %s, t); printf "%%d <%%s>\n", n, t
   t = s; n = gsub(%s, %s, t); printf "%%d <%%s>\n", n, t
-  n = split(s, parts, %s); j = ""; for (i = 1; i <= n; i++) j = j (i > 1 ? %s : "") parts[i]; printf "%%d <%%s>\n", n, j
+  n = split(s, parts, %s); j = ""; for (i = 1; i <= n; i++) j = j (i > 1 ? %s : "") parts[i]; printf "%%d <%%s> %%d\n", n, j, length(parts)
 }`, awk.QuoteStr(s), reSrc, reSrc, reSrc, awk.QuoteStr(string(c.Repl)), reSrc, awk.QuoteStr(string(c.Repl)), awk.QuoteStr(sep), awk.QuoteStr(sep))
 	got, err := runAwk(src, "", c.Chars)
 	if err != nil {
 		return fmt.Sprintf("run-time error: %v\nprogram: %s", err, src)
 	}
 	if got != exp.String() {
-		return fmt.Sprintf("match/gsub/sub/split disagree with their defining equations (chars=%v)\nlines: match r RSTART RLENGTH <substr(s,RSTART,RLENGTH)> | gsub(r,\"&\") n <t> | sub n <t> | gsub n <t> | split n <joined>\nprogram: %s\ngoawk: %q\nwant:  %q", c.Chars, src, got, exp.String())
+		return fmt.Sprintf("match/gsub/sub/split disagree with their defining equations (chars=%v)\nlines: match r RSTART RLENGTH <substr(s,RSTART,RLENGTH)> | gsub(r,\"&\") n <t> | sub n <t> | gsub n <t> | split n <joined> length(parts)\nprogram: %s\ngoawk: %q\nwant:  %q", c.Chars, src, got, exp.String())
 	}
 	if isASCII(s) && isASCII(c.Re) {
 		other, err2 := runAwk(src, "", !c.Chars)
@@ -396,6 +454,9 @@ func runRegex(x *h.Ctx, c RegexCase) string {
 	}
 	if c.Warm > 0 {
 		x.Class("after-many-regexes")
+	}
+	if len(c.Hist) > 0 {
+		x.Class("after-history")
 	}
 	if len(all) >= 1 && (!isASCII(s) || len(all) >= 2) {
 		x.Nontrivial("")
